@@ -48,7 +48,14 @@ impl Ctx {
             let scrolled = self.sess.screen().is_some_and(|s| s.scrollback() > 0)
                 || self.sess.runner.slots.iter().flatten().any(|p| p.scrollback() > 0)
                 || self.force_f12;
-            let f = oracle::rekey(f, scrolled, self.sess.runner.cols_changed);
+            let slot_taint = self
+                .sess
+                .runner
+                .slots
+                .iter()
+                .zip(self.sess.runner.slot_f12.iter())
+                .any(|(p, t)| *t && p.as_ref().is_some_and(|p| p.scrollback() > 0));
+            let f = oracle::rekey(f, scrolled, self.sess.runner.cols_changed || slot_taint);
             if self.failures.len() < 200 {
                 let ops = self.sess.ops[self.case_start..].to_vec();
                 self.failures.push((f, ops));
@@ -552,7 +559,29 @@ fn run_generic(ctx: &mut Ctx, n_cases: u64) {
     let rec = recipe_for(&ctx.prop.clone());
     templates(ctx);
     for _ in 0..n_cases {
-        let (_rows, _cols, sb) = ctx.new_case(rec.cb, u8::from(rec.sb));
+        let (rows, cols, sb) = ctx.new_case(rec.cb, u8::from(rec.sb));
+        if matches!(ctx.prop.as_str(), "C02" | "C19" | "C09" | "C10") && ctx.rng.chance(1, 2) {
+            // pairs from independent histories: a prologue on the same size whose end state is kept
+            // in slot 1, then a new parser for the history proper (the case stays self-contained)
+            let n = ctx.rng.range(1, 6);
+            for _ in 0..n {
+                let mut g = ctx.gen();
+                let k = g.pick_kind(rec.setup);
+                let bytes = g.chunk(k);
+                ctx.sess.process_setup(&bytes);
+                if ctx.sess.dead {
+                    break;
+                }
+            }
+            api_noise(ctx, &rec, true);
+            if !ctx.sess.dead {
+                ctx.sess.snapshot(1);
+            }
+            // set_size in the prologue may have changed the size: the history proper uses the
+            // size the snapshot has, so that the pair is comparable
+            let (r2, c2) = ctx.sess.screen().map_or((rows, cols), |s| (u64::from(s.size().0), u64::from(s.size().1)));
+            ctx.sess.restart_keep(r2, c2, sb, rec.cb);
+        }
         let mut dirty: Option<Vec<u8>> = None;
         let mut chain = None;
         for step in 0..rec.steps {
@@ -870,9 +899,21 @@ fn cmd_gen(prop: &str, seed: u64, tier: &str, outdir: &str) {
                     if line.starts_with("N ") {
                         let t: Vec<&str> = line.split(' ').collect();
                         let n = |i: usize| t.get(i).and_then(|x| x.parse::<u64>().ok()).unwrap_or(1);
-                        ctx.sess.new_case(n(1), n(2), n(3), t.get(4).copied().unwrap_or("none"), "corpus");
+                        if t.get(5) == Some(&"keep") {
+                            ctx.sess.restart_keep(n(1), n(2), n(3), t.get(4).copied().unwrap_or("none"));
+                        } else {
+                            ctx.sess.new_case(n(1), n(2), n(3), t.get(4).copied().unwrap_or("none"), "corpus");
+                        }
                     } else if line == "L" {
                         ctx.sess.sync();
+                    } else if line.starts_with("LS ") || line.starts_with("S ") {
+                        let k = line.split(' ').nth(1).and_then(|x| x.parse::<u64>().ok()).unwrap_or(0);
+                        ctx.sess.snapshot(k);
+                    } else if line.starts_with("O ") {
+                        // the property's oracle on the state reached (minimized past failures run first)
+                        let mut dirty = None;
+                        let mut chain = None;
+                        run_oracle(&mut ctx, &mut dirty, &mut chain);
                     } else {
                         ctx.sess.checked(line, "corpus");
                     }
